@@ -168,7 +168,7 @@ def origins(prog, fn, v, _seen=None, depth=0):
             if name in ('binary_search_by', 'binary_search_by_key', 'binary_search'):
                 kind = 'ok' if 'as:Ok' in flds else ('err' if 'as:Err' in flds else 'any')
                 return {('search', kind, inner.id)}
-            if name in ('index', 'index_mut', 'get_unchecked', 'get_unchecked_mut') and inner.args:
+            if name in ('index', 'index_mut', 'get_unchecked', 'get_unchecked_mut', 'get', 'get_mut', 'first', 'last') and inner.args:      # (get / first / last: the payload of the Some side)
                 vf = vec_field_of(prog, inner.args[0])
                 if vf is not None:
                     return {('elem', vf)}
